@@ -21,6 +21,9 @@ Ins(m, a, b, c) == It("ins", m, "", a, b, c, "", 0)
 Pins(m, a, b) == It("pins", m, "", a, b, 0, "", 0)
 Br(m, a, b, t) == It("br", m, "", a, b, 0, t, 0)
 Jal(a, t) == It("jal", "jal", "", a, 0, 0, t, 0)
+\* the same transfers WRITTEN in their 16-bit form (f = "c"): c.j t / c.jal t / c.beqz rs, t / c.bnez rs, t
+Cj(a, t) == It("jal", "jal", "c", a, 0, 0, t, 0)
+Cbr(m, a, t) == It("br", m, "c", a, 0, 0, t, 0)
 Pbr(m, a, b, t) == It("pbr", m, "", a, b, 0, t, 0)
 Pj(m, t) == It("pj", m, "", 0, 0, 0, t, 0)
 Li(a, hi, lo) == It("li", "li", "", a, hi, lo, "", 0)
@@ -140,7 +143,14 @@ PBranch ==
      Pbr("bgt", 5, 6, "L1"), Pbr("bleu", 8, 9, "L1"), Pj("j", "L1"), Pj("jal", "L1"),
      Align(4), Align(4096), Data(1), Data(2) >> \o GapItems
 
-Alpha == CASE Class = "absedge" -> AbsEdge [] Class = "pbranch" -> PBranch [] Class = "datamix" -> DataMix [] Class = "abs" -> Abs [] Class = "oddalign" -> OddAlign [] Class = "control" -> Control [] Class = "far" -> Far [] Class = "values" -> Values
+\* hand-written compressed transfers to labels, between items that shrink (li, compressible instruction) and pad
+HandC ==
+  << Lab("L1"), Lab("L2"), I4, IC, Li(9, 0, 5),
+     Cj(0, "L1"), Cj(1, "L1"), Cj(0, "L2"), Cbr("beq", 8, "L1"), Cbr("bne", 9, "L2"), Cbr("beq", 15, "L2"),
+     Jal(0, "L1"), Br("beq", 8, 0, "L2"),
+     Align(4), Data(2) >> \o GapItems
+
+Alpha == CASE Class = "handc" -> HandC [] Class = "absedge" -> AbsEdge [] Class = "pbranch" -> PBranch [] Class = "datamix" -> DataMix [] Class = "abs" -> Abs [] Class = "oddalign" -> OddAlign [] Class = "control" -> Control [] Class = "far" -> Far [] Class = "values" -> Values
            [] Class = "aligns" -> Aligns [] OTHER -> Literals
 
 VARIABLE prog      \* sequence of alphabet indices
